@@ -10,8 +10,9 @@ ShapesQ  == AllShapes(3, 3, 12)
 \* write-heavy configurations: smaller stores, every rank still present
 ShapesW  == {s \in AllShapes(3, 3, 8) : Prod(s) >= 2}
 \* thorough: extents up to 4, up to 36 cells
-ShapesT  == AllShapes(3, 4, 36)
-ShapesTW == {s \in AllShapes(3, 4, 12) : Prod(s) >= 2}
+ShapesT  == AllShapes(3, 4, 16)
+ShapesTW == {s \in AllShapes(3, 3, 9) : Prod(s) >= 2}
+ShapesV3 == AllShapes(3, 3, 8)
 \* simulation: large
 ShapesS  == {s \in AllShapes(3, 4, 16) : Prod(s) >= 4}
 \* representative small stores for exhaustive write enumeration (every rank, a 1-wide dimension,
